@@ -7,6 +7,7 @@ import (
 	"fmt"
 	"sort"
 	"strconv"
+	goruntime "runtime"
 	"strings"
 
 	"github.com/onflow/cadence/common"
@@ -43,6 +44,7 @@ type RunStats struct {
 	GaugeCalls      int
 	HostCalls       int
 	SimBlocks       int
+	NumCPU          map[string]int // plans run per runtime.NumCPU() value of the worker process
 	FaultsFired     map[string]int
 	Probes          map[string]int
 	ByEngine        map[string]int
@@ -52,7 +54,7 @@ type RunStats struct {
 }
 
 func NewRunStats() *RunStats {
-	return &RunStats{FaultsFired: map[string]int{}, Probes: map[string]int{}, ByEngine: map[string]int{}, OpKinds: map[string]int{}, ModelStates: map[string]bool{}, FailKinds: map[string]int{}}
+	return &RunStats{NumCPU: map[string]int{}, FaultsFired: map[string]int{}, Probes: map[string]int{}, ByEngine: map[string]int{}, OpKinds: map[string]int{}, ModelStates: map[string]bool{}, FailKinds: map[string]int{}}
 }
 
 func (s *RunStats) Merge(o *RunStats) {
@@ -74,6 +76,9 @@ func (s *RunStats) Merge(o *RunStats) {
 	s.SimBlocks += o.SimBlocks
 	for k, v := range o.FaultsFired {
 		s.FaultsFired[k] += v
+	}
+	for k, v := range o.NumCPU {
+		s.NumCPU[k] += v
 	}
 	for k, v := range o.Probes {
 		if strings.HasPrefix(k, "max_") {
@@ -146,6 +151,7 @@ func (r *Runner) violate(prop, oracle string, step int, node string, key string,
 
 func RunPlan(p *Plan, opts RunOpts) *Runner {
 	r := NewRunner(p, opts)
+	r.Stats.NumCPU[fmt.Sprintf("numcpu=%d,gomaxprocs=%d", goruntime.NumCPU(), goruntime.GOMAXPROCS(0))]++
 	for i := range p.Steps {
 		if r.stop {
 			break
@@ -481,10 +487,21 @@ func (r *Runner) invariants(i int, n *Node, s *Step, t *Transcript, faulted bool
 	case isScript:
 		if len(t.Writes) > 0 && !tempCommitWrites(t) {
 			r.violate("C24", "script.no-writes", i, name, "script-write", "script issued %d register writes, first %s at seq %d", len(t.Writes), t.Writes[0].Key, t.Writes[0].Seq)
+		} else if len(t.Writes) > 0 {
+			r.violate("C24", "script.no-writes", i, name, "temp-commit-write", "script issued %d register writes in a temporary storage commit (storage.used / storage.capacity / Account(payer:))", len(t.Writes))
 		}
 	case t.Class != "ok":
+		if len(t.Writes) > 0 && tempCommitWrites(t) {
+			r.violate("C24", "failed-tx.no-writes", i, name, "temp-commit-write", "failed transaction issued %d register writes in a temporary storage commit (storage.used / storage.capacity / Account(payer:))", len(t.Writes))
+		}
 		if len(t.Writes) > 0 && !tempCommitWrites(t) {
 			first := t.Writes[0]
+			for _, w := range t.Writes {
+				if !tempCommitWrite(t, w) {
+					first = w
+					break
+				}
+			}
 			// the only legitimate register writes of a failed transaction: the failure is the failure of a register write
 			// itself (host fault at SetValue), i.e. the commit had begun and the host discards the partial write set
 			writeFailed := false
@@ -532,6 +549,10 @@ func (r *Runner) invariants(i int, n *Node, s *Step, t *Transcript, faulted bool
 					r.violate("C24", "ok-tx.writes-last", i, name, "early-write", "successful transaction wrote %s at seq %d before its code finished (last program effect at seq %d)", w.Key, w.Seq, lastProg)
 					break
 				}
+				if w.Seq < lastProg {
+					r.violate("C24", "ok-tx.writes-last", i, name, "temp-commit-write", "successful transaction wrote %s at seq %d, before its code finished, in a temporary storage commit (storage.used / storage.capacity / Account(payer:))", w.Key, w.Seq)
+					break
+				}
 			}
 		}
 	}
@@ -540,9 +561,15 @@ func (r *Runner) invariants(i int, n *Node, s *Step, t *Transcript, faulted bool
 // tempCommitWrite: a write belonging to a temporary storage commit made on behalf of
 // storage.used / storage.capacity / Account(payer:) (see known findings, C24).
 func tempCommitWrite(t *Transcript, w Write) bool {
+	if t.EndSeq >= 0 && w.Seq > t.EndSeq {
+		return false // a write of the final commit
+	}
 	for k := w.Seq + 1; k < len(t.Trace); k++ {
 		switch t.Trace[k].Kind {
 		case "SetValue":
+			if strings.HasPrefix(t.Trace[k].Res, "!") {
+				return true // the temporary commit was cut short by an injected fault at one of its register writes
+			}
 			continue
 		case "GetStorageUsed", "GetStorageCapacity", "CreateAccount":
 			return true
@@ -946,7 +973,7 @@ func (r *Runner) checkFaulted(i int, n *Node, t *Transcript, region string) {
 		if region == "" {
 			region = t.RegionAt(t.FiredSeq)
 		}
-		key := fmt.Sprintf("swallow:%s:%s", n.Cfg.Engine, site)
+		key := fmt.Sprintf("swallow:%s:%s", site, n.Cfg.Engine)
 		if region == "ITER" {
 			key = "swallow-in-storage-iteration:" + site
 		}
